@@ -317,9 +317,20 @@ def run_sampled(ctx, case, kind):
             nch = max(nch, nref + 1)
             d0.append(rng.standard_normal((int(rng.integers(2500, 4000)), nch)))
             refs.append([int(x) for x in rng.permutation(nch)[:nref]])
+        if nset >= 2 and rng.random() < 0.4:
+            n0 = min(a.shape[0] for a in d0)
+            d0 = [a[:n0].copy() for a in d0]
+            ctx.state("datasets of equal length" + (", different channel counts" if len({a.shape[1] for a in d0}) > 1 else ""))
         ctx.state({1: "1 dataset", 3: "3 datasets"}.get(nset, "2 datasets"))
         if any(r != sorted(r) for r in refs):
             ctx.state("refs listed out of order")
+    u = rng.random()
+    if u < 0.15:
+        d0 = [np.round(a * float(rng.choice([3, 40, 2000]))).astype(rng.choice([np.int16, np.int32, np.int64])) for a in d0]  # raw ADC counts
+        ctx.state("integer-typed records")
+    elif u < 0.3:
+        d0 = [a.astype(np.float32) for a in d0]
+        ctx.state("float32 records")
     tag = "step@SingleSetup(sampled)" if kind == "single" else "step@MultiSetup_PreGER(sampled)"
     drv = Driver(ctx, kind, d0, fs0, refs, tag)
     drv.observe("init")
